@@ -55,58 +55,81 @@ func run(c *Case) {
 		}
 	}()
 	var mu sync.Mutex
-	var ended []int           // state of the running instance when it handled its own OnTerminated (after recording)
+	var ended []int // state of the running instance when it handled its own OnTerminated (after recording)
 	launched := make(chan []int, 16)
 	gen := 0
+	// every generation is created by a supervisor actor inside its own handler: ActorOf called from a foreign goroutine on the
+	// system (parent = the guard) races with the guard handling the termination notice of the previous generation (both touch the
+	// guard's children table: DESIGN 7.4), which would crash this harness, not the code under test
+	type spawnReq struct {
+		mk  func(ctx vivid.ActorContext) vivid.ActorRef
+		out chan vivid.ActorRef
+	}
+	sup := sys.ActorOfF(func() vivid.Actor {
+		return vivid.FunctionalActor(func(ctx vivid.ActorContext) {
+			if m, ok := ctx.Message().(spawnReq); ok {
+				m.out <- m.mk(ctx)
+			}
+		})
+	})
 	spawn := func() vivid.ActorRef {
-		return sys.ActorOfF(func() vivid.Actor {
-			var state []int
-			return vivid.FunctionalActor(func(ctx vivid.ActorContext) {
-				switch m := ctx.Message().(type) {
-				case *vivid.OnLaunch:
-					// recovery runs inside this handler's step; report the state from a message queued behind it
-					ctx.Tell(ctx.Ref(), query{})
-				case query:
-					launched <- append([]int(nil), state...)
-				case int:
-					state = append(state, m)
-					ctx.StateChanged(m)
-				case marker:
-					state = append(state, m.V)
-				case []int: // snapshot
-					state = append([]int(nil), m...)
-				case *vivid.OnPersistenceSnapshot:
-					ctx.SaveSnapshot(append([]int(nil), state...))
-				case *vivid.OnTerminate:
-					mu.Lock()
-					g := gen
-					mu.Unlock()
-					state = append(state, -(1000 + g))
-					ctx.StateChanged(marker{-(1000 + g)})
-				case *vivid.OnTerminated:
-					if m.TerminatedActor.Equal(ctx.Ref()) {
+		out := make(chan vivid.ActorRef, 1)
+		sys.Tell(sup, spawnReq{out: out, mk: func(pctx vivid.ActorContext) vivid.ActorRef {
+			return pctx.ActorOfF(func() vivid.Actor {
+				var state []int
+				return vivid.FunctionalActor(func(ctx vivid.ActorContext) {
+					switch m := ctx.Message().(type) {
+					case *vivid.OnLaunch:
+						// recovery runs inside this handler's step; report the state from a message queued behind it
+						ctx.Tell(ctx.Ref(), query{})
+					case query:
+						launched <- append([]int(nil), state...)
+					case int:
+						state = append(state, m)
+						ctx.StateChanged(m)
+					case marker:
+						state = append(state, m.V)
+					case []int: // snapshot
+						state = append([]int(nil), m...)
+					case *vivid.OnPersistenceSnapshot:
+						ctx.SaveSnapshot(append([]int(nil), state...))
+					case *vivid.OnTerminate:
 						mu.Lock()
 						g := gen
 						mu.Unlock()
-						state = append(state, -(2000 + g))
-						ctx.StateChanged(marker{-(2000 + g)})
-						mu.Lock()
-						ended = append([]int(nil), state...)
-						mu.Unlock()
+						state = append(state, -(1000 + g))
+						ctx.StateChanged(marker{-(1000 + g)})
+					case *vivid.OnTerminated:
+						if m.TerminatedActor.Equal(ctx.Ref()) {
+							mu.Lock()
+							g := gen
+							mu.Unlock()
+							state = append(state, -(2000 + g))
+							ctx.StateChanged(marker{-(2000 + g)})
+							mu.Lock()
+							ended = append([]int(nil), state...)
+							mu.Unlock()
+						}
+					case crash:
+						panic("c09closing: scripted failure")
 					}
-				case crash:
-					panic("c09closing: scripted failure")
-				}
-			})
-		}, func(d *vivid.ActorDescriptor) {
-			d.WithPersistenceName(name)
-			d.WithPersistenceEventThreshold(c.Threshold)
-			d.WithSupervisionStrategyProvider(supervision.FunctionalStrategyProvider(func() supervision.Strategy {
-				return supervision.OneForOne(-1, time.Millisecond, time.Millisecond, supervision.FunctionalDecide(func(*supervision.AccidentRecord) supervision.Directive {
-					return supervision.DirectiveRestart
+				})
+			}, func(d *vivid.ActorDescriptor) {
+				d.WithPersistenceName(name)
+				d.WithPersistenceEventThreshold(c.Threshold)
+				d.WithSupervisionStrategyProvider(supervision.FunctionalStrategyProvider(func() supervision.Strategy {
+					return supervision.OneForOne(-1, time.Millisecond, time.Millisecond, supervision.FunctionalDecide(func(*supervision.AccidentRecord) supervision.Directive {
+						return supervision.DirectiveRestart
+					}))
 				}))
-			}))
-		})
+			})
+		}})
+		select {
+		case r := <-out:
+			return r
+		case <-time.After(4 * time.Second):
+			return nil
+		}
 	}
 	// a watcher: the Terminated notice is sent at the very end of tryTerminated (after the persist and the unregistration), so
 	// its arrival — not a sleep — tells that the old generation has finished writing
@@ -134,6 +157,10 @@ func run(c *Case) {
 		}
 	}
 	ref := spawn()
+	if ref == nil {
+		c.Err = "the supervisor did not create the first generation"
+		return
+	}
 	if _, ok := wait(); !ok {
 		c.Err = "the first generation never launched"
 		return
@@ -163,6 +190,10 @@ func run(c *Case) {
 				return
 			}
 			ref = spawn()
+			if ref == nil {
+				c.Err = fmt.Sprintf("the supervisor did not create generation %d", i+1)
+				return
+			}
 		}
 		s, ok := wait()
 		if !ok {
